@@ -165,20 +165,43 @@ MUTANTS = [
             sorted(unique_extractors, key=lambda e: self.extractor_order[id(e)])
         )
 ''')]),
-    ("ok-c15-cached-property", "C15", [("eyecite/models.py",
-      "import re\nfrom collections import UserString\n", "import functools\nimport re\nfrom collections import UserString\n"),
+    ("ok-c15-lock-compiled-regex", "C15", [("eyecite/models.py",
+      "import re\nfrom collections import UserString\n", "import re\nimport threading\nfrom collections import UserString\n"),
       ("eyecite/models.py",
-      '''    @property
-    def compiled_regex(self):
-        """Cache compiled regex as a property."""
-        if not hasattr(self, "_compiled_regex"):
+      '''@dataclass
+class TokenExtractor:
+''', '''_compile_lock = threading.Lock()
+
+
+@dataclass
+class TokenExtractor:
+'''),
+      ("eyecite/models.py",
+      '''        if not hasattr(self, "_compiled_regex"):
             self._compiled_regex = re.compile(self.regex, flags=self.flags)
         return self._compiled_regex
-''', '''    @functools.cached_property
-    def compiled_regex(self):
-        """Cache compiled regex as a property."""
-        return re.compile(self.regex, flags=self.flags)
+''', '''        if not hasattr(self, "_compiled_regex"):
+            with _compile_lock:
+                if not hasattr(self, "_compiled_regex"):
+                    self._compiled_regex = re.compile(
+                        self.regex, flags=self.flags
+                    )
+        return self._compiled_regex
 ''')]),
+    ("ok-c15-lock-get-citations", "C15", [("eyecite/find.py",
+      "import re\nfrom bisect import bisect_left, bisect_right\n", "import re\nimport threading\nfrom bisect import bisect_left, bisect_right\n"),
+      ("eyecite/find.py",
+      '''    document.tokenize(tokenizer=tokenizer)
+''', '''    with _tokenize_lock:
+        document.tokenize(tokenizer=tokenizer)
+'''),
+      ("eyecite/find.py",
+      '''def get_citations(
+    plain_text: str = "",''', '''_tokenize_lock = threading.RLock()
+
+
+def get_citations(
+    plain_text: str = "",''')]),
 ]
 
 
